@@ -223,6 +223,23 @@ fn prepare_child(sc: &Scenario, root: &Path, wfd: i32) {
     }));
 }
 
+/// Scenarios with files beyond 1 GiB: the world runs with a soft address-space limit, so that code
+/// which reads such a file whole fails its allocation (abort => inconclusive run) instead of
+/// exhausting the machine. Lifted again before the oracle maps the (lazily zeroed) model copy.
+fn address_space_limit(sc: &Scenario, on: bool) {
+    let huge: u64 = sc.tree.entries.iter().map(|e| if let EntryKind::File(Content::Sparse { len, .. }) = &e.kind { *len } else { 0 }).sum();
+    if huge <= 1 << 30 {
+        return;
+    }
+    unsafe {
+        let mut rl = libc::rlimit { rlim_cur: 0, rlim_max: 0 };
+        if libc::getrlimit(libc::RLIMIT_AS, &mut rl) == 0 {
+            rl.rlim_cur = if on { (3u64 << 30).min(rl.rlim_max) } else { rl.rlim_max };
+            libc::setrlimit(libc::RLIMIT_AS, &rl);
+        }
+    }
+}
+
 /// One shuttle execution of the scenario; `finish` is called from inside the world and must not
 /// return. Returns only when shuttle gave up (deadlock, step bound, escaped harness panic).
 fn run_world(sc: &Scenario, trace: bool, finish: world::Finish) {
@@ -265,9 +282,11 @@ pub fn child_main(sc: &Scenario, root: &Path, wfd: i32, trace: bool) -> ! {
         crate::solo::compute(sc);
     }
     let sc_fin = Arc::new(sc.clone());
+    address_space_limit(sc, true);
     let finish: world::Finish = Arc::new(move |report| {
         crate::fsmon::undo_outside_creations();
         crate::fsmon::arm(false);
+        address_space_limit(&sc_fin, false);
         let out = oracle::judge(&sc_fin, &report);
         let json = serde_json::to_vec(&out).unwrap_or_else(|e| format!("{{\"harness_error\":\"{}\"}}", e).into_bytes());
         write_all_fd(wfd, &json);
@@ -278,6 +297,7 @@ pub fn child_main(sc: &Scenario, root: &Path, wfd: i32, trace: bool) -> ! {
     }
     run_world(sc, trace, finish);
     crate::fsmon::arm(false);
+    address_space_limit(sc, false);
     // the world never returns normally (finish() exits); we are here because shuttle gave up
     let panics = PANICS.lock().map(|p| p.clone()).unwrap_or_default();
     let (mut end, harness) = classify_abort(&panics);
